@@ -167,7 +167,7 @@ func (fc *FnCtx) binop(in *ssa.BinOp) Val {
 				}
 				return intV(ite(app("<", x.S, "0"), "(- 1)", "0"), T)
 			}
-			return intV(sc.define("ar", "Int", app("div", x.S, pow2(uint(c.Uint64())).String())), T)
+			return intV(sc.define("ar", "Int", shrTerm(x.S, uint(c.Uint64()))), T)
 		}
 	case token.SHL:
 		if c, ok := constOf(in.Y); ok {
@@ -231,6 +231,21 @@ func (fc *FnCtx) binop(in *ssa.BinOp) Val {
 	v := fc.freshVal("bitop", T)
 	fc.assume(fc.typeFacts(v, fc.vc.st.NA))
 	return v
+}
+
+// shrTerm: x >> k (floor division by 2^k). Shifts by whole bytes are written as
+// nested divisions by 256 so that x>>8, x>>16, ... share subterms and the
+// solver sees the byte decomposition x = 256*(x>>8) + x%256 directly (a single
+// division by 2^56 hides it and makes byte-codec goals time out).
+func shrTerm(x Term, k uint) Term {
+	if k >= 16 && k%8 == 0 {
+		t := x
+		for i := uint(0); i < k/8; i++ {
+			t = app("div", t, "256")
+		}
+		return t
+	}
+	return app("div", x, pow2(k).String())
 }
 
 func is8(T types.Type) bool {
@@ -385,9 +400,16 @@ func (fc *FnCtx) makeInterface(in *ssa.MakeInterface, st *State) Val {
 		pl = x.S
 	case KPtr:
 		if x.S == "" {
-			panic(unsupported("interior pointer boxed in an interface"))
+			// a pointer to a field / element / cell passed as `any` (e.g. to
+			// encoding/binary.Read): the payload is an opaque handle; the pointer
+			// itself is remembered so that a library contract can name *it
+			pl = fc.vc.sc.fresh("ptrbox", "Int")
+			fc.assume(app(">", pl, "0"))
+			fc.eng.boxes[pl] = x
+		} else {
+			pl = x.S
+			fc.eng.boxes[pl] = x
 		}
-		pl = x.S
 	case KBool:
 		pl = ite(x.S, "1", "0")
 	case KFunc:
